@@ -943,7 +943,7 @@ func c05Pgroup(e *Env, s *Sched) {
 			allocs := false
 			for _, b := range g.Blocks {
 				for _, in := range b.Instrs {
-					if al, ok := in.(*ssa.Alloc); ok && al.Heap && ir.NamedType(al.Type()) == pe.recvT {
+					if al, ok := in.(*ssa.Alloc); ok && al.Heap && (ir.NamedType(al.Type()) == pe.recvT || embedsNamed(al.Type(), pe.recvT)) {
 						allocs = true
 					}
 				}
@@ -953,12 +953,24 @@ func c05Pgroup(e *Env, s *Sched) {
 			}
 			n++
 			setpgid := false
-			for _, ev := range e.C.FieldStores(g, "Setpgid") {
-				if bv, ok := ir.ConstBool(ev.Val); ok && bv {
-					// the SysProcAttr must be stored into cmd.SysProcAttr
-					for _, ev2 := range e.C.FieldStores(g, "SysProcAttr") {
-						if ev2.Val != nil && ir.Resolve(ev2.Val) == ir.Resolve(ev.Root) {
-							setpgid = true
+			// in the constructor, or in the helper of the package that builds its command
+			var where []*ssa.Function
+			for _, h := range e.staticClosure(g) {
+				if h.Blocks != nil && rootFn(h).Package() == sp {
+					where = append(where, h)
+				}
+			}
+			for _, h := range where {
+				if h != g && len(ir.CallsIn(h, func(c *ssa.CallCommon) bool { return ir.IsCallTo(c, "os/exec.Command", "os/exec.CommandContext") })) == 0 {
+					continue
+				}
+				for _, ev := range e.C.FieldStores(h, "Setpgid") {
+					if bv, ok := ir.ConstBool(ev.Val); ok && bv {
+						// the SysProcAttr must be stored into cmd.SysProcAttr
+						for _, ev2 := range e.C.FieldStores(h, "SysProcAttr") {
+							if ev2.Val != nil && ir.Resolve(ev2.Val) == ir.Resolve(ev.Root) {
+								setpgid = true
+							}
 						}
 					}
 				}
@@ -970,6 +982,32 @@ func c05Pgroup(e *Env, s *Sched) {
 			r.Unknown("constructor of "+pe.recvT, e.Pos(pe.kill.Pos()), "no constructor found")
 		}
 	}
+}
+
+// embedsNamed: t (or what it points to) is a struct embedding the named type, by value
+// or by pointer, directly.
+func embedsNamed(t types.Type, named string) bool {
+	st, ok := derefStruct(t)
+	if !ok {
+		return false
+	}
+	for i := 0; i < st.NumFields(); i++ {
+		f := st.Field(i)
+		if !f.Embedded() {
+			continue
+		}
+		ft := f.Type()
+		if ir.NamedType(ft) == named {
+			return true
+		}
+		if pt, isP := ft.(*types.Pointer); isP && "*"+ir.NamedType(pt.Elem()) == named {
+			return true
+		}
+		if "*"+ir.NamedType(ft) == named {
+			return true
+		}
+	}
+	return false
 }
 
 // killSum is the per-function summary of the kill-delivers rule.
@@ -1057,7 +1095,7 @@ func (kc *killCheck) summary(f *ssa.Function, top bool, depth int) *killSum {
 			}
 			n := ir.Normalize(ir.Lit{Cond: i.Cond, Pol: idx == 0})
 			if n.Kind == "cmp" && n.Op == token.EQL && ir.IsNilConst(n.Y) {
-				if p, ok := e.C.PathOf(n.X); ok && (p.Suffix("cmd") || p.Suffix("Process")) && ir.Resolve(p.Root) == ssa.Value(f.Params[0]) {
+				if p, ok := e.C.PathOf(n.X); ok && isProcHandle(n.X) && ir.Resolve(p.Root) == ssa.Value(f.Params[0]) {
 					return true // nothing was started: nothing to signal
 				}
 			}
@@ -1072,7 +1110,7 @@ func (kc *killCheck) summary(f *ssa.Function, top bool, depth int) *killSum {
 							found := false
 							for _, l := range alt {
 								if l.Kind == "cmp" && l.Op == token.EQL && ir.IsNilConst(l.Y) {
-									if p, ok := e.C.PathOf(l.X); ok && (p.Suffix("cmd") || p.Suffix("Process")) && ir.Resolve(p.Root) == ssa.Value(h.Params[0]) {
+									if p, ok := e.C.PathOf(l.X); ok && isProcHandle(l.X) && ir.Resolve(p.Root) == ssa.Value(h.Params[0]) {
 										found = true
 									}
 								}
@@ -1100,6 +1138,28 @@ func (kc *killCheck) summary(f *ssa.Function, top bool, depth int) *killSum {
 			last := nres - 1
 			if !ir.IsErrorType(f.Signature.Results().At(last).Type()) {
 				return true
+			}
+			// the nothing-to-kill return behind a joined test (`started := cmd != nil &&
+			// cmd.Process != nil; if !started { return nil }`): every way to it holds one of
+			// the two nil tests on the receiver
+			if top {
+				if ws := e.waysTo(rt); len(ws) > 0 {
+					all := true
+					for _, w := range ws {
+						found := false
+						for _, l := range w {
+							if l.Kind == "cmp" && l.Op == token.EQL && ir.IsNilConst(l.Y) && isProcHandle(l.X) {
+								if p, ok := e.C.PathOf(l.X); ok && ir.Resolve(p.Root) == ssa.Value(f.Params[0]) {
+									found = true
+								}
+							}
+						}
+						all = all && found
+					}
+					if all {
+						return false
+					}
+				}
 			}
 			for _, v := range RetVals(rt, last) {
 				v = ir.Resolve(v)
@@ -1188,6 +1248,17 @@ func (kc *killCheck) isPid(v ssa.Value, depth int) (bool, string) {
 		return true, ""
 	}
 	return false, "derived from " + e.C.Render(v)
+}
+
+// isProcHandle: v is the executor's command or its started process (by type: the
+// field's name is the executor's business).
+func isProcHandle(v ssa.Value) bool {
+	pt, ok := v.Type().(*types.Pointer)
+	if !ok {
+		return false
+	}
+	n := ir.NamedType(pt.Elem())
+	return n == "os/exec.Cmd" || n == "os.Process"
 }
 
 func paramIndex(p *ssa.Parameter) int {
@@ -1372,7 +1443,7 @@ func c05TimeoutCtx(e *Env, s *Sched) {
 			continue
 		}
 		for _, ci := range ir.CallsIn(g, func(c *ssa.CallCommon) bool { return ir.IsCallTo(c, "os/exec.Command", "os/exec.CommandContext") }) {
-			isCtx := ir.IsCallTo(ci.Common(), "os/exec.CommandContext") && len(g.Params) > 0 && ir.Resolve(ci.Common().Args[0]) == ssa.Value(g.Params[0])
+			isCtx := ir.IsCallTo(ci.Common(), "os/exec.CommandContext") && e.ctxFromCaller(ci.Common().Args[0], 0)
 			r.Check(isCtx, ShortFn(g)+": child created with exec.CommandContext(ctx, …)", e.InstrPos(ci),
 				"the child process is not bound to the step's context: a timeout / cancel would not terminate it")
 		}
@@ -1414,6 +1485,39 @@ func c05TimeoutCtx(e *Env, s *Sched) {
 	if nCancel == 0 {
 		r.OK("process executors: os/exec's kill-on-context-end is not replaced (no store to exec.Cmd.Cancel)", "-", "")
 	}
+}
+
+// ctxFromCaller: v is the context the function was called with - a context parameter of
+// an entry point (a constructor called through the registry), or of a helper whose
+// every static call site hands on such a parameter; context decorators keep it.
+func (e *Env) ctxFromCaller(v ssa.Value, d int) bool {
+	if d > 5 {
+		return false
+	}
+	v = ir.Resolve(v)
+	switch x := v.(type) {
+	case *ssa.Parameter:
+		if !strings.HasSuffix(ir.NamedType(x.Type()), "context.Context") {
+			return false
+		}
+		sites := e.StaticCallSites(x.Parent())
+		idx := paramIndex(x)
+		for _, cs := range sites {
+			if idx < 0 || idx >= len(cs.Common().Args) || !e.ctxFromCaller(cs.Common().Args[idx], d+1) {
+				return false
+			}
+		}
+		return true
+	case *ssa.Call:
+		if ir.IsCallTo(&x.Call, "context.WithValue", "context.WithCancel") && len(x.Call.Args) > 0 {
+			return e.ctxFromCaller(x.Call.Args[0], d+1)
+		}
+	case *ssa.Extract:
+		if c, ok := x.Tuple.(*ssa.Call); ok && x.Index == 0 && ir.IsCallTo(&c.Call, "context.WithCancel") {
+			return e.ctxFromCaller(c.Call.Args[0], d+1)
+		}
+	}
+	return false
 }
 
 // c05CancelMark: a node that is running when a stop reaches it is marked canceled,
